@@ -6,7 +6,7 @@ Import ListNotations.
 (* Splitting over several calibrate() calls on a live object. *)
 Theorem C05_calibrate_split :
   forall Param Series LossV model lossf loss_leb rounds0 propose draws agent_actions plan a b s s1 r1 l0 b0,
-    sch _ _ _ (live _ _ _ s) = RR LossV l0 b0 -> c_prec (cfg _ _ _ (live _ _ _ s)) = None -> 0 < a ->
+    sch _ _ _ (live _ _ _ s) = RR LossV l0 b0 -> c_prec (cfg _ _ _ (live _ _ _ s)) = None -> 0 < a -> 0 < b ->
     calibrate Param Series LossV model lossf loss_leb rounds0 propose draws agent_actions plan a s = (s1, None, r1) ->
     calibrate Param Series LossV model lossf loss_leb rounds0 propose draws agent_actions plan (a + b) s =
     calibrate Param Series LossV model lossf loss_leb rounds0 propose draws agent_actions plan b s1.
